@@ -171,3 +171,11 @@ extend("C08", "refused products whose plane also has another pixel scale than th
 extend("C11", "300..560-sample apertures symmetric about the array centre except for a few dead pixels (centroid 1e-5..1e-2 samples off centre).")
 extend("C17", "planes with rectangular samples (per-axis pixel scale) through rescale.")
 extend("C18", "sequence seeds (list / tuple / uint64 array) whose entries differ only above bit 31.")
+
+# ---- round o
+extend("C01", "spectra cast to complex64 / clongdouble before idft2.")
+extend("C02", "output masks as bool / float weights incl. 1e-200 and weights spread over 300 decades.")
+extend("C09", "second legs: image wavefronts returned by propagate_fft (possibly cropped) and propagate_dft propagated again with the FFT, without and with a dirty scratch buffer.")
+extend("C10", "spectra edited in place between uses (value / wavelength arrays, through the attribute or the caller's array), own and foreign units (spectrum_paths).")
+extend("C13", "numpy vectors on the left of constructed and derived spectra (reflected multiplication).")
+extend("C16", "one efficiency Spectrum re-used across frames with in-place edits of its arrays in between (qe_reuse).")
